@@ -1,4 +1,4 @@
-import PprofVerif.Model.Legacy
+import PprofVerif.Model.LegacyPb
 /- Driver operations for C14 (legacy formats): print a document, its documented meaning, and
    the Lean parser on bytes.  The float parameters of the model are instantiated here with
    Lean's IEEE doubles (`Float.exp` = C `exp`). -/
@@ -28,8 +28,15 @@ def mapForm : Rd MapForm := do
   | _ => failure
 def mapEntry : Rd MapEntry := do
   pure { indent := ← nat, ox := ← bool, width := ← nat, start := ← nat, limit := ← nat, gap := ← nat, form := ← mapForm }
+def logPrefix : Rd LogPrefix := do pure { text := ← str, line := ← nat }
+def mapLine : Rd MapLine := do
+  match ← nat with
+  | 0 => pure (.entry (← opt logPrefix) (← mapEntry))
+  | 1 => pure (.entryRef (← opt logPrefix) (← mapEntry) (← str) (← str))
+  | 2 => pure (.attr (← opt logPrefix) (← nat) (← str) (← bool) (← str))
+  | _ => failure
 def mapSection : Rd MapSection := do
-  pure { entries := ← list (do let f ← list filler; let e ← mapEntry; pure (f, e)), post := ← list filler }
+  pure { entries := ← list (do let f ← list filler; let e ← mapLine; pure (f, e)), post := ← list filler }
 
 def countDoc : Rd CountDoc := do
   pure { pre := ← list filler, name := ← str, total := ← nat, width := ← nat,
@@ -90,14 +97,23 @@ def cpuDoc : Rd CpuDoc := do
          recs := ← list (do pure { count := ← nat, addrs := ← list nat }),
          eod := ← bool, map := ← opt mapSection }
 
+def javaLocKind : Rd JavaLocKind := do
+  match ← nat with
+  | 0 => pure (.fileLine (← str) (← str) (← int))
+  | 1 => pure (.path (← str) (← str))
+  | 2 => pure (.stub (← str) (← str))
+  | 3 => pure (.plain (← str))
+  | _ => failure
+def javaLoc : Rd JavaLoc := do
+  pure { fill := ← list filler, indent := ← nat, width := ← nat, addr := ← nat, gap := ← nat, kind := ← javaLocKind }
+
+def javaCpuDoc : Rd JavaCpuDoc := do
+  pure { big := ← bool, w64 := ← bool, period := ← nat,
+         recs := ← list (do pure { count := ← nat, addrs := ← list nat }),
+         eod := ← bool, blanksAfter := ← nat, locs := ← list javaLoc }
+
 def javaDoc : Rd JavaDoc := do
-  let kind : Rd JavaLocKind := do
-    match ← nat with
-    | 0 => pure (.fileLine (← str) (← str) (← int))
-    | 1 => pure (.path (← str) (← str))
-    | 2 => pure (.stub (← str) (← str))
-    | 3 => pure (.plain (← str))
-    | _ => failure
+  let kind := javaLocKind
   pure { heap := ← bool, format := ← bool, resolution := ← str, samplingPeriod := ← opt nat,
          msSinceReset := ← opt nat, spaced := ← bool, width := ← nat,
          recs := ← list (do pure { blanks := ← nat, indent := ← nat, first := ← nat, second := ← nat,
@@ -110,7 +126,7 @@ end R
 /-- a document of any format -/
 inductive Doc where
   | count (d : CountDoc) | heap (d : HeapDoc) | cont (d : ContDoc) | thread (d : ThreadDoc)
-  | cpu (d : CpuDoc) | java (d : JavaDoc)
+  | cpu (d : CpuDoc) | java (d : JavaDoc) | javacpu (d : JavaCpuDoc)
 
 def readDoc (ts : List String) : Option Doc :=
   match ts with
@@ -120,24 +136,33 @@ def readDoc (ts : List String) : Option Doc :=
   | "thread" :: r => (Rd.run R.threadDoc r).map .thread
   | "cpu" :: r => (Rd.run R.cpuDoc r).map .cpu
   | "java" :: r => (Rd.run R.javaDoc r).map .java
+  | "javacpu" :: r => (Rd.run R.javaCpuDoc r).map .javacpu
   | _ => none
 
 def Doc.print : Doc → Str
   | .count d => printCount d | .heap d => printHeap d | .cont d => printContention d
-  | .thread d => printThread d | .cpu d => printCpu d | .java d => printJava d
+  | .thread d => printThread d | .cpu d => printCpu d | .java d => printJava d | .javacpu d => printJavaCpu d
 
 def Doc.wf : Doc → Bool
   | .count d => d.wf | .heap d => d.wf | .cont d => d.wf | .thread d => d.wf | .cpu d => d.wf | .java d => d.wf
+  | .javacpu d => d.wf
+
+/-- the extra hypothesis of the ParseData-level theorem (threadz only) -/
+def Doc.chainOK : Doc → Bool
+  | .thread d => d.chainOK
+  | _ => true
 
 def Doc.expected : Doc → Profile
   | .count d => expectedCount d | .heap d => expectedHeap scaleF d | .cont d => expectedContention cycF d
   | .thread d => expectedThread d | .cpu d => expectedCpu d | .java d => expectedJava scaleF d
+  | .javacpu d => expectedJavaCpu d
 
 /-- the format's own parser (what `parseX_printX` is about) -/
 def Doc.parseOwn (d : Doc) (b : Str) : Outcome Profile :=
   match d with
   | .count _ => parseGoCount b | .heap _ => parseHeap scaleF b | .cont _ => parseContention cycF b
   | .thread _ => parseThread b | .cpu _ => parseCPU b | .java _ => parseJavaProfile scaleF b
+  | .javacpu _ => parseCPU b
 
 def outProfile : Outcome Profile → String
   | .ok p => "ok " ++ Wr.render (Wr.profile p)
@@ -153,6 +178,10 @@ def ops : List (String × (List String → String)) := [
     match readDoc ts with
     | none => "bad-op"
     | some d => if d.wf then "1" else "0"),
+  ("legacy.chainok", fun ts =>
+    match readDoc ts with
+    | none => "bad-op"
+    | some d => if d.chainOK then "1" else "0"),
   ("legacy.expected", fun ts =>
     match readDoc ts with
     | none => "bad-op"
@@ -162,6 +191,16 @@ def ops : List (String × (List String → String)) := [
     match Rd.run Rd.str ts with
     | none => "bad-op"
     | some b => outProfile (parseLegacy scaleF cycF b)),
+  -- the whole of ParseData: the protobuf decoder model first, then the chain
+  ("legacy.parsedata", fun ts =>
+    match Rd.run Rd.str ts with
+    | none => "bad-op"
+    | some b => outProfile (parseDataReal scaleF cycF b)),
+  -- ParseProcMaps on a text (glog prefixes, attribute lines, `$attr` references)
+  ("legacy.procmaps", fun ts =>
+    match Rd.run Rd.str ts with
+    | none => "bad-op"
+    | some b => Wr.render (Wr.list Wr.mapping (parseProcMaps (splitLines b)))),
   -- the format's own parser on the printed document
   ("legacy.parseprinted", fun ts =>
     match readDoc ts with
